@@ -121,6 +121,7 @@ pub fn eval(toks: &[&str]) -> String {
                 hex(&hv::group_convert(&g))
             )
         }
+        ("fn", "tlnew") => tl_new(toks[2]),
         ("fn", "serdezst") => serde_zst(toks[2], toks[3]),
         ("fn", "static_empty") => hex(&hv::static_empty()),
         ("fnrange", "c2b") => {
@@ -162,6 +163,47 @@ pub fn eval(toks: &[&str]) -> String {
         }
         _ => format!("bad-fn {}", toks.join(" ")),
     }
+}
+
+/// `TableLayout::new::<T>()` for concrete element types: `size align -> size ctrl_align` (the inputs are
+/// `size_of`/`align_of` as rustc reports them), with the direct oracle of C17/C02: the control alignment
+/// — which is the alignment the allocator is asked for — is at least the element's and the group's.
+fn tl_new(ty: &str) -> String {
+    #[repr(align(32))]
+    #[derive(Clone, Copy)]
+    struct Al32(#[allow(dead_code)] u8);
+    #[repr(align(64))]
+    #[derive(Clone, Copy)]
+    struct Al64(#[allow(dead_code)] [u8; 70]);
+    #[repr(align(4096))]
+    #[derive(Clone, Copy)]
+    struct Al4096(#[allow(dead_code)] u8);
+    fn one<T>() -> (usize, usize, (usize, usize)) {
+        (std::mem::size_of::<T>(), std::mem::align_of::<T>(), hv::table_layout_new::<T>())
+    }
+    let (size, align, (lsize, ca)) = match ty {
+        "unit" => one::<()>(),
+        "u8" => one::<u8>(),
+        "u16" => one::<u16>(),
+        "u8x3" => one::<[u8; 3]>(),
+        "u16x5" => one::<[u16; 5]>(),
+        "u64" => one::<u64>(),
+        "u128" => one::<u128>(),
+        "pair" => one::<(u64, [u8; 3])>(),
+        "al32" => one::<Al32>(),
+        "al64" => one::<Al64>(),
+        "al4096" => one::<Al4096>(),
+        "big" => one::<[u64; 25]>(),
+        _ => return format!("bad-fn tlnew {}", ty),
+    };
+    let mut out = format!("in={} {} out={} {}", size, align, lsize, ca);
+    if ca < align || ca < hv::GROUP_WIDTH || !ca.is_power_of_two() || lsize != size {
+        out.push_str(&format!(
+            " ORACLE-ARITH(TableLayout::new_for_size_{}_align_{}_gives_size_{}_ctrl_align_{}:_below_the_element_or_group_alignment)",
+            size, align, lsize, ca
+        ));
+    }
+    out
 }
 
 /// C20 on ZERO-SIZED elements: the real `Deserialize` impls of `HashSet<()>` / `HashMap<(), ()>` fed an
@@ -255,6 +297,9 @@ pub fn generate(seed: u64, thorough: bool) -> Vec<String> {
         v.push(format!("fnrange capcheck 1 {} {}", hi, size));
     }
     v.push("fnrange bm2c 64".into());
+    for ty in ["unit", "u8", "u16", "u8x3", "u16x5", "u64", "u128", "pair", "al32", "al64", "al4096", "big"] {
+        v.push(format!("fn tlnew {}", ty));
+    }
     // serde on zero-sized elements: claimed lengths around `cautious`'s cap and far above it
     for kind in ["set", "map"] {
         for h in ["-", "0", "1", "3", "4", "7", "8", "28", "29", "4095", "4096", "4097", "7168", "7169", "65536", "1048576", "16777216"] {
